@@ -411,7 +411,11 @@ func (st *StateDB) CreateValidator(name string, operator, coinbase common.Addres
 		return nil
 	}
 
-	st.validatorJournal.append(validatorCreateChange{address: &mainAddress})
+	var removed *Validator
+	if obj, ok := st.validatorObjects.Load(mainAddress); ok && obj != nil {
+		removed = obj.(*Validator)
+	}
+	st.validatorJournal.append(validatorCreateChange{address: &mainAddress, prev: removed})
 	st.setValidator(newVal)
 	st.incrValidatorsStat(newVal)
 	return newVal
